@@ -91,6 +91,28 @@ UNKNOWN_TAILS = [b" UNKNOWN", b" UNKNOWN UNKNOWN", b" family=UNKNOWN peer=10.0.0
                  b" \xc3\xa9", b" \n", b" \n foo", b" x\ny", b" \x00", b" TCP4 1.2.3.4 5.6.7.8 1 2", b" \xe2\x82\xac\xe2\x82\xac", b" \xf0\x9f\x98\x80"]
 
 
+def special_lines():
+    """Accepted lines with endpoint values a semantic filter would single out: equal source and
+    destination, wildcard / loopback / broadcast / multicast / link-local / private addresses,
+    ports 0 and well-known ports, IPv4-in-IPv6 spellings."""
+    out = []
+    v4 = [b"0.0.0.0", b"127.0.0.1", b"255.255.255.255", b"224.0.0.1", b"10.0.0.1", b"169.254.1.1", b"192.168.0.255", b"1.1.1.1", b"100.64.0.1"]
+    v6 = [b"::", b"::1", b"ff02::1", b"fe80::1", b"fc00::1", b"2001:db8::1", b"::ffff:1.2.3.4", b"::1.2.3.4", b"64:ff9b::1.2.3.4", b"2002:102:304::",
+          b"1:2:3:4:5:6:7:8", b"::ffff:0:0", b"0:0:0:0:0:0:0:0", b"0:0:0:0:0:0:0:1"]
+    ports = [(b"0", b"0"), (b"80", b"80"), (b"0", b"65535"), (b"22", b"443"), (b"65535", b"65535"), (b"1", b"0")]
+    for i, a in enumerate(v4):
+        for b_ in (a, v4[(i + 1) % len(v4)]):
+            sp, dp = ports[i % len(ports)]
+            out.append(b"PROXY TCP4 " + a + b" " + b_ + b" " + sp + b" " + dp + CRLF)
+    for i, a in enumerate(v6):
+        for b_ in (a, v6[(i + 3) % len(v6)]):
+            sp, dp = ports[i % len(ports)]
+            l = b"PROXY TCP6 " + a + b" " + b_ + b" " + sp + b" " + dp + CRLF
+            if len(l) <= 107:
+                out.append(l)
+    return out
+
+
 def long_lines():
     """Accepted TCP6 / TCP4 / UNKNOWN lines of every total length from 98 to 107 bytes (and TCP6
     lines of 108+ that must be rejected): the long spellings std accepts (zero-padded groups, the
@@ -147,6 +169,7 @@ def valid_lines(rng, n):
                 tail = b" " + bytes(rng.choice(b"abcXYZ 0123456789.:") for _ in range(rng.randint(0, 80)))
             out.append(b"PROXY UNKNOWN" + tail + CRLF)
     out.extend(long_lines())
+    out.extend(special_lines())
     # lengths pinned around the limit
     for total in (105, 106, 107, 108, 109):
         pad = total - len(b"PROXY UNKNOWN \r\n")
